@@ -8,28 +8,28 @@ Local Open Scope N_scope.
       pushed (FIFO, each item once), the live slots hold the pushed items, head - tail never
       exceeds the capacity, and — with the producer's acquire load of the consumer index — no slot
       access conflicts with an access that is not ordered before it. *)
-Theorem ring_invariant_all_interleavings : forall acq cap l, 0 < cap ->
-  inv acq (fst (ring_run acq (ring_init cap) l)).
-Proof. intros acq cap l H. apply run_inv. now apply init_inv. Qed.
+Theorem ring_invariant_all_interleavings : forall ps cs cap l, 0 < cap ->
+  inv ps cs (fst (ring_run ps cs (ring_init cap) l)).
+Proof. intros ps cs cap l H. apply run_inv. now apply init_inv. Qed.
 Print Assumptions ring_invariant_all_interleavings.
 
 Theorem ring_fifo_exactly_once : forall cap l, 0 < cap ->
-  let r := fst (ring_run true (ring_init cap) l) in
+  let r := fst (ring_run true true (ring_init cap) l) in
   r_popped r = firstn (N.to_nat (r_tail r)) (r_pushed r) /\ r_head r - r_tail r <= r_cap r /\ r_raced r = false.
 Proof.
-  intros cap l H r. pose proof (ring_invariant_all_interleavings true cap l H) as Hi. fold r in Hi.
-  split; [apply (i_fifo _ _ Hi)|]. split; [apply (i_bound _ _ Hi)|apply (i_race _ _ Hi); reflexivity].
+  intros cap l H r. pose proof (ring_invariant_all_interleavings true true cap l H) as Hi. fold r in Hi.
+  split; [apply (i_fifo _ _ _ Hi)|]. split; [apply (i_bound _ _ _ Hi)|apply (i_race _ _ _ Hi); reflexivity].
 Qed.
 Print Assumptions ring_fifo_exactly_once.
 
-Theorem ring_pop_output : forall acq r got, inv acq r -> snd (ring_step acq r SPopPublish) = OPopped got ->
-  r_popped (fst (ring_step acq r SPopPublish)) = r_popped r ++ got /\
+Theorem ring_pop_output : forall ps cs r got, inv ps cs r -> snd (ring_step ps cs r SPopPublish) = OPopped got ->
+  r_popped (fst (ring_step ps cs r SPopPublish)) = r_popped r ++ got /\
   r_popped r ++ got = firstn (N.to_nat (r_tail r) + length got) (r_pushed r).
 Proof. exact pop_output_is_next. Qed.
 Print Assumptions ring_pop_output.
 
 (* 2. The code as found loaded the consumer index with memory_order_relaxed: a data race. *)
-Theorem ring_relaxed_tail_load_refuted : r_raced (fst (ring_run false (ring_init 1) race_trace)) = true.
+Theorem ring_relaxed_tail_load_refuted : r_raced (fst (ring_run false true (ring_init 1) race_trace)) = true.
 Proof. exact relaxed_tail_races. Qed.
 Print Assumptions ring_relaxed_tail_load_refuted.
 
@@ -71,7 +71,7 @@ Print Assumptions queue_close_without_mutex_refuted.
 
 (* ------------------------------------------------ non-vacuity *)
 Example ring_demo :
-  snd (ring_run true (ring_init 2)
+  snd (ring_run true true (ring_init 2)
          [SPushBegin [1; 2; 3]; SPushWrite; SPopBegin 5; SPushWrite; SPushPublish; SPopPublish;
           SPopBegin 5; SPopRead; SPushBegin [4]; SPopRead; SPopPublish; SPushWrite; SPushPublish])
   = [ONone; ONone; ONone; ONone; OPushed 2; OPopped []; ONone; ONone; ONone; ONone; OPopped [1; 2]; ONone; OPushed 0]. (* the last push began while both slots were still occupied *)
